@@ -22,6 +22,7 @@ generated tree (op `wf`).  Helper lemmas live in `LyModel/Merge/Lemmas*.lean`.
 | `merge_contains_source`         | every source node is found by its path, explicit leaves with the source's value | source without key-less list / state leaf-list instances |
 | `merge_contains_source_pos`     | … by positions: the `k`-th source instance of a class of equal instances is the `k`-th of the result | all wf |
 | `merge_keeps_untouched_target`  | a target node whose path the source does not contain is unchanged            | source without such instances, path without them |
+| `merge_keeps_matched_term` (audit) | … also when the source holds there a leaf-list instance of that value or a default leaf without `LYD_MERGE_DEFAULTS` | same |
 | `merge_keeps_untouched_target_pos` | … by positions                                                             | all wf         |
 | `merge_result_canonical`, `merge_result_canon_fixpoint`, `merge_result_wf` | the result is well-formed again (shape, order, uniqueness, flags) | all wf |
 | `dup_equal_recursive`, `_content`, `_with_flags`, `dup_no_meta`, `dup_shallow` | a duplicate is the original relabelled as the options say | all (flags ok) |
@@ -55,6 +56,44 @@ def exT : List DNode := [.inner 0 {} [] [.term 1 { dflt := true } [] [100], .ter
 def exSrc : List DNode := [.inner 0 {} [] [.term 1 {} [] [101], .term 2 {} [] [49], .term 2 {} [] [51],
   .inner 3 {} [] [.term 4 {} [] [97], .term 5 {} [] [121]], .inner 3 {} [] [.term 4 {} [] [98]], .term 6 {} [] [120]]]
 
+/-! ### audit witness: nested lists, a two-key list, a choice with a non-presence container in a case, a numerically sorted leaf-list
+
+`list o { key "k1 k2"; leaf k1; leaf k2 { type uint8; } list i { key j; leaf j; leaf w; } choice ch { case a { leaf x; } case b {
+container y { leaf z { default "d"; } } } } }  leaf-list e { type int8; }` -/
+def auS : Schema := { modName := "exa", nodes := [
+  { depth := 0, kind := .list, name := "o", nkeys := 2 },
+  { depth := 1, kind := .leaf, name := "k1", iskey := true },
+  { depth := 1, kind := .leaf, name := "k2", iskey := true, ty := .uint8 },
+  { depth := 1, kind := .list, name := "i", nkeys := 1 },
+  { depth := 2, kind := .leaf, name := "j", iskey := true },
+  { depth := 2, kind := .leaf, name := "w" },
+  { depth := 1, kind := .choice, name := "ch" },
+  { depth := 2, kind := .case, name := "a" },
+  { depth := 3, kind := .leaf, name := "x" },
+  { depth := 2, kind := .case, name := "b" },
+  { depth := 3, kind := .container, name := "y" },
+  { depth := 4, kind := .leaf, name := "z", dflts := [[100]] },
+  { depth := 0, kind := .leaflist, name := "e", ty := .int8 }] }
+
+def auIn (j : UInt8) (w : List DNode) : DNode := .inner 3 {} [] (.term 4 {} [] [j] :: w)
+def auOut (k1 k2 : UInt8) (rest : List DNode) : DNode := .inner 0 {} [] (.term 1 {} [] [k1] :: .term 2 {} [] [k2] :: rest)
+
+/-- first target entry: `o[a,1] { i[j=p] { w = 1 }, i[j=q], x = 1 }` -/
+def auT1 : DNode := auOut 97 49 [auIn 112 [.term 5 {} [] [49]], auIn 113 [], .term 8 {} [] [49]]
+/-- target: `auT1`, `o[a,2] { y (default) { z (default) } }`, `e = [-5, 3]` -/
+def auT : List DNode := [auT1, auOut 97 50 [.inner 10 { dflt := true } [] [.term 11 { dflt := true } [] [100]]],
+  .term 12 {} [] [45, 53], .term 12 {} [] [51]]
+/-- first source entry: `o[a,1] { i[j=q] { w = 2 }, i[j=r], y { z = e } }` -/
+def auSrc1 : DNode := auOut 97 49 [auIn 113 [.term 5 {} [] [50]], auIn 114 [], .inner 10 {} [] [.term 11 {} [] [101]]]
+/-- source: `auSrc1`, `o[a,2] { y { z = f } }`, `o[b,1]`, `e = [3, 10]` -/
+def auSrc : List DNode := [auSrc1, auOut 97 50 [.inner 10 {} [] [.term 11 {} [] [102]]], auOut 98 49 [],
+  .term 12 {} [] [51], .term 12 {} [] [49, 48]]
+
+/-- non-vacuity (audit): both trees satisfy the hypotheses used throughout this file (`wfForest`, `noDupInstL`, `flagsOkL`); the merge changes
+the target (new inner-list entries, a new two-key entry, an explicit `z` below the default container, `e = 10` sorted after `3`) -/
+example : wfForest auS auT = true ∧ wfForest auS auSrc = true ∧ noDupInstL auS auSrc = true ∧ flagsOkL auSrc = true ∧
+    beqL (merge auS {} auT auSrc) auT = false ∧ (merge auS {} auT auSrc).length = 6 := by decide
+
 /-! ## merge into the empty target -/
 
 /-- **merge_into_empty**: merging into an empty target yields a copy of the source — the source itself, every node
@@ -78,6 +117,11 @@ theorem merge_into_empty_with_flags (S : Schema) (o : MergeOpts) (s : List DNode
 example : wfForest exS exSrc = true ∧ beqL (merge exS {} [] exSrc) exSrc = false ∧
     beqL (merge exS { withFlags := true } [] exSrc) exSrc = true := by decide
 
+/-- non-vacuity (audit): both theorems instantiated at the nested-list source `auSrc`, the first also at the source `exDSrc` (below) with
+repeated key-less list / state leaf-list instances -/
+example : merge auS {} [] auSrc = auSrc.map (cp {}) ∧ merge auS { withFlags := true, defaults := true } [] auSrc = auSrc :=
+  ⟨merge_into_empty auS {} auSrc (by decide), merge_into_empty_with_flags auS _ auSrc (by decide) rfl⟩
+
 /-! ## consuming merge = copying merge -/
 
 /-- **merge_destruct_eq_copy**: `LYD_MERGE_DESTRUCT` *moves* the unmatched source subtrees into the target, the plain
@@ -91,6 +135,10 @@ theorem merge_destruct_eq_copy (S : Schema) (o : MergeOpts) (t s : List DNode) (
   rw [mergeKids_congr S { o with destruct := true } { o with destruct := false } rfl rfl [] false s _ h]
 
 example : flagsOkL exSrc = true ∧ beqL (merge exS { destruct := true } exT exSrc) exT = false := by decide
+
+/-- non-vacuity (audit): the theorem instantiated at the nested-list trees (non-empty target, source subtrees both matched and linked) -/
+example : merge auS { destruct := true } auT auSrc = merge auS { destruct := false } auT auSrc :=
+  merge_destruct_eq_copy auS {} auT auSrc (by decide)
 
 /-- … and without that hypothesis it is false: an inner source node flagged default above an explicit child (a flag
 pattern libyang's own API never produces) is normalised by `lyd_dup` (`lyd_insert_node` → `lyd_np_cont_dflt_del`) but
@@ -118,6 +166,12 @@ theorem merge_idempotent_partial (S : Schema) (o : MergeOpts) (t s : List DNode)
 
 example : wfForest exS exT = true ∧ wfForest exS exSrc = true ∧ noDupInstL exS exSrc = true ∧
     beqL (merge exS {} exT exSrc) exT = false := by decide
+
+/-- non-vacuity (audit): the theorem instantiated at the nested-list trees, under `LYD_MERGE_DEFAULTS` too -/
+example : merge auS {} (merge auS {} auT auSrc) auSrc = merge auS {} auT auSrc ∧
+    merge auS { defaults := true } (merge auS { defaults := true } auT auSrc) auSrc = merge auS { defaults := true } auT auSrc :=
+  ⟨merge_idempotent_partial auS {} auT auSrc (by decide) (by decide) (by decide),
+   merge_idempotent_partial auS _ auT auSrc (by decide) (by decide) (by decide)⟩
 
 /-- a schema with a state leaf-list and a key-less list, and two trees with repeated instances:
 `leaf-list sl {config false;}  list kl {config false; leaf a;}` -/
@@ -153,9 +207,27 @@ theorem merge_idempotent (S : Schema) (o : MergeOpts) (t s : List DNode) (ht : w
 example : wfForest exDS exDT = true ∧ wfForest exDS exDSrc = true ∧ noDupInstL exDS exDSrc = false ∧
     beqL (merge exDS {} exDT exDSrc) exDT = false ∧ (merge exDS {} exDT exDSrc).length = 6 := by decide
 
+/-- non-vacuity (audit): the theorem instantiated at the duplicate-instance trees above and at the nested-list trees with the roles of
+target and source exchanged -/
+example : merge exDS {} (merge exDS {} exDT exDSrc) exDSrc = merge exDS {} exDT exDSrc ∧
+    merge auS {} (merge auS {} auSrc auT) auT = merge auS {} auSrc auT :=
+  ⟨merge_idempotent exDS {} exDT exDSrc (by decide) (by decide), merge_idempotent auS {} auSrc auT (by decide) (by decide)⟩
+
 
 /-! ## the result contains the source -/
 
+-- AUDIT: conclusion slightly weaker than the docstring (no vacuity: hypotheses witnessed below, incl. `IsChain` on three-node chains
+-- through nested list entries).  The docstring's last claim — "A default leaf of the source without `LYD_MERGE_DEFAULTS` is also
+-- found, with the target's value if the target had one" — is only half in the statement: for such an `x` the guard
+-- `(isKind leaf && (o.defaults || !x.flags.dflt)) = true` is false, so the conclusion gives a node `n` of `x`'s schema node and
+-- nothing about its value.  (The same holds for `merge_contains_source_pos`.)  `merge_keeps_untouched_target` does not cover it
+-- either, since the source does contain the path.  Minimal repair of the statement: one more conjunct
+--   `(x.isTerm = true → S.isKind x.sid .leaf = true → x.flags.dflt = true → o.defaults = false →
+--       ∀ y, descend S chain t = some y → n = y)`
+-- or drop the half sentence from the docstring.  The missing half is proved separately, for chains of TARGET nodes, as
+-- `merge_keeps_matched_term` below (with `keep_chain_alone`, appended to LemmasKeep2: `keep_chain` with the last step "matched term node,
+-- not copied" besides "no match"); this theorem's statement is left as it was.  The behaviour is also witnessed on the example trees
+-- directly below the existing example (`exT` as the source with its default `a`, `exSrc` as the target with `a = e`).
 /-- **merge_contains_source**: take any node `x` of the source, addressed by the chain of source nodes leading to it
 (`IsChain`: a top-level node, one of its non-key children, …).  Following the *same path of (schema node, keys / value)*
 in the result (`descend`) finds a node `n` of `x`'s schema node and identity; if `x` is a leaf that is explicit — or any
@@ -201,6 +273,52 @@ example :
       (descend exS [cS, lS, vS] exT).map (·.val) = some [120] ∧
       (descend exS [cS, lS, vS] (merge exS {} exT exSrc)).map (·.val) = some [121] := by
   decide
+
+/-- the source's `c` and `c/l[k=a]` of `exSrc` -/
+def auLS : DNode := .inner 3 {} [] [.term 4 {} [] [97], .term 5 {} [] [121]]
+def auCS : DNode := .inner 0 {} [] [.term 1 {} [] [101], .term 2 {} [] [49], .term 2 {} [] [51], auLS, .inner 3 {} [] [.term 4 {} [] [98]],
+  .term 6 {} [] [120]]
+/-- the target's `c` of `exT` -/
+def auCT : DNode := .inner 0 {} [] [.term 1 { dflt := true } [] [100], .term 2 {} [] [49], .term 2 {} [] [50],
+  .inner 3 {} [] [.term 4 {} [] [97], .term 5 {} [] [120]], .term 6 {} [] [122], .term 6 {} [] [121]]
+
+/-- non-vacuity (audit): `IsChain` holds for the three-node chain `c`, `c/l[k=a]`, `c/l[k=a]/v` of the example above (the example
+itself does not show it), and `merge_contains_source` instantiated there yields the source's value `y` in the result -/
+example : IsChain exS [auCS, auLS, .term 5 {} [] [121]] false exSrc ∧
+    ∃ n, descend exS [auCS, auLS, .term 5 {} [] [121]] (merge exS {} exT exSrc) = some n ∧ n.val = [121] := by
+  have hc : IsChain exS [auCS, auLS, .term 5 {} [] [121]] false exSrc :=
+    ⟨List.Mem.head _, by show auLS ∈ [_, _, _, _, _, _]; simp [auLS], by show _ ∈ [_]; simp⟩
+  obtain ⟨n, h1, _, _, h4⟩ := merge_contains_source exS {} exT exSrc (by decide) (by decide) (by decide) _ _ hc rfl
+  exact ⟨hc, n, h1, (h4 rfl (by decide)).1⟩
+
+/-- non-vacuity (audit): a chain through a two-key list entry and an entry of the list nested in it: the source's `o[a,1]/i[j=q]/w = 2`
+(the target's `i[j=q]` has no `w`) is found in the result with its value -/
+example : ∃ n, descend auS [auSrc1, auIn 113 [.term 5 {} [] [50]], .term 5 {} [] [50]] (merge auS {} auT auSrc) = some n ∧
+    n.val = [50] := by
+  obtain ⟨n, h1, _, _, h4⟩ := merge_contains_source auS {} auT auSrc (by decide) (by decide) (by decide)
+    [auSrc1, auIn 113 [.term 5 {} [] [50]], .term 5 {} [] [50]] _
+    ⟨List.Mem.head _, by show _ ∈ [_, _, _]; simp [auIn], by show _ ∈ [_]; simp⟩ rfl
+  exact ⟨n, h1, (h4 rfl (by decide)).1⟩
+
+/-- non-vacuity (audit) of `merge_contains_leaflist_value`, composed with `merge_contains_source`: the source's leaf-list instance
+`c/ll = 3`, which the target does not have, is found in the result with its value -/
+example : ∃ n, descend exS [auCS, .term 2 {} [] [51]] (merge exS {} exT exSrc) = some n ∧ n.val = [51] := by
+  obtain ⟨n, h1, _, h3, _⟩ := merge_contains_source exS {} exT exSrc (by decide) (by decide) (by decide)
+    [auCS, .term 2 {} [] [51]] _ ⟨List.Mem.head _, by show _ ∈ [_, _, _, _, _, _]; simp⟩ rfl
+  exact ⟨n, h1, merge_contains_leaflist_value exS _ n (by decide) (by decide) rfl h3⟩
+
+/-- non-vacuity (audit), and evidence for the AUDIT note above: roles exchanged (`exT` is the source, its `c/a` a default node, `exSrc` the
+target with `c/a = e`): the theorem finds a node for `c/a`; by evaluation it carries the target's value `e` — and the source's default `d`
+under `LYD_MERGE_DEFAULTS`, which is the case the theorem's conclusion does speak about -/
+example : (∃ n, descend exS [auCT, .term 1 { dflt := true } [] [100]] (merge exS {} exSrc exT) = some n ∧ n.sid = 1) ∧
+    (descend exS [auCT, .term 1 { dflt := true } [] [100]] (merge exS {} exSrc exT)).map (fun n => (n.val, n.flags.dflt))
+      = some ([101], false) ∧
+    (descend exS [auCT, .term 1 { dflt := true } [] [100]] (merge exS { defaults := true } exSrc exT)).map
+      (fun n => (n.val, n.flags.dflt)) = some ([100], true) := by
+  refine ⟨?_, by decide, by decide⟩
+  obtain ⟨n, h1, h2, _⟩ := merge_contains_source exS {} exSrc exT (by decide) (by decide) (by decide)
+    [auCT, .term 1 { dflt := true } [] [100]] _ ⟨List.Mem.head _, by show _ ∈ [_, _, _, _, _, _]; simp⟩ rfl
+  exact ⟨n, h1, h2⟩
 
 /-- **merge_contains_source, by positions** (all well-formed sources, nodes in or below instances of key-less lists /
 state leaf-lists included — those have no (schema node, keys) path, libyang prints a position).  A source node `x` is
@@ -269,6 +387,43 @@ example :
       (descend exS [cT, ll2] exSrc).isNone = true ∧
       (descend exS [cT, ll2] (merge exS {} exT exSrc)).map (·.val) = some [50] := by
   decide
+
+/-- non-vacuity (audit): the theorem instantiated on the example above (`IsChain` and the side conditions on the chain hold) and on a chain
+through a two-key list entry and a nested list entry: the target's `o[a,1]/i[j=p]/w = 1` — the source has `o[a,1]` but no `i[j=p]` — is
+where it was -/
+example : descend exS [auCT, .term 2 {} [] [50]] (merge exS {} exT exSrc) = some (.term 2 {} [] [50]) ∧
+    descend auS [auT1, auIn 112 [.term 5 {} [] [49]], .term 5 {} [] [49]] (merge auS {} auT auSrc) = some (.term 5 {} [] [49]) :=
+  ⟨merge_keeps_untouched_target exS {} exT exSrc (by decide) (by decide) (by decide) [auCT, .term 2 {} [] [50]] _
+     ⟨List.Mem.head _, by show _ ∈ [_, _, _, _, _, _]; simp⟩ (by decide) rfl (by decide),
+   merge_keeps_untouched_target auS {} auT auSrc (by decide) (by decide) (by decide)
+     [auT1, auIn 112 [.term 5 {} [] [49]], .term 5 {} [] [49]] _
+     ⟨List.Mem.head _, by show _ ∈ [_, _, _]; simp [auIn], by show _ ∈ [_]; simp⟩ (by decide) rfl (by decide)⟩
+
+/-- **merge_keeps_matched_term** (audit addition; the repair proposed in the AUDIT note at `merge_contains_source`): a target node `y`,
+addressed by the chain of target nodes leading to it, is found unchanged in the result not only when the source does not contain its
+path (`merge_keeps_untouched_target`, the case `descend … s = none`) but also when what the source holds there is a term node that
+`lyd_merge_sibling_r` matches without copying (`Merge.LeavesAlone`): an instance of a leaf-list with `y`'s value, or a **default leaf
+while `LYD_MERGE_DEFAULTS` is not given** — "a default leaf of the source … is found with the target's value if the target had one". -/
+theorem merge_keeps_matched_term (S : Schema) (o : MergeOpts) (t s : List DNode) (ht : wfForest S t = true)
+    (hs : wfForest S s = true) (hd : noDupInstL S s = true) (chain : List DNode) (y : DNode)
+    (hc : IsChain S chain false t) (hcd : ∀ c ∈ chain, S.isDupInst c.sid = false ∧ S.isKey c.sid = false)
+    (hy : chain.getLast? = some y) (hn : LeavesAlone S o y (descend S chain s)) :
+    descend S chain (merge S o t s) = some y := by
+  obtain ⟨ht1, ht2, ht3, _⟩ := wfSibs_parts ht
+  obtain ⟨_, hs2, _⟩ := wfSibs_parts hs
+  exact keep_chain_alone S o chain false s [] false { cur := t } y ht1 ht2 ht3 (srcOk_of_wf hs hd) hs2 hc hcd hy hn
+
+/-- non-vacuity (audit): `exSrc` as the target, `exT` as the source.  The target's explicit `c/a = e` meets the source's default `a`: kept
+(value, flags, metadata) — while under `LYD_MERGE_DEFAULTS` the hypothesis fails and the node does change (see the example at
+`merge_contains_source`); the target's `c/ll = 1` meets the source's `ll = 1`: kept -/
+example : descend exS [auCS, .term 1 {} [] [101]] (merge exS {} exSrc exT) = some (.term 1 {} [] [101]) ∧
+    descend exS [auCS, .term 2 {} [] [49]] (merge exS { defaults := true } exSrc exT) = some (.term 2 {} [] [49]) :=
+  ⟨merge_keeps_matched_term exS {} exSrc exT (by decide) (by decide) (by decide) [auCS, .term 1 {} [] [101]] _
+     ⟨List.Mem.head _, by show _ ∈ [_, _, _, _, _, _]; simp⟩ (by decide) rfl
+     (show LeavesAlone exS {} _ (some (.term 1 { dflt := true } [] [100])) from ⟨rfl, by decide⟩),
+   merge_keeps_matched_term exS { defaults := true } exSrc exT (by decide) (by decide) (by decide) [auCS, .term 2 {} [] [49]] _
+     ⟨List.Mem.head _, by show _ ∈ [_, _, _, _, _, _]; simp⟩ (by decide) rfl
+     (show LeavesAlone exS _ _ (some (.term 2 {} [] [49])) from ⟨rfl, by decide⟩)⟩
 
 /-- **merge_keeps_untouched_target, by positions** (all well-formed trees, nodes in or below instances of key-less lists
 / state leaf-lists included).  A target node `y` is addressed by the chain of target nodes leading to it (no list keys),
@@ -349,6 +504,13 @@ theorem merge_result_wf (S : Schema) (o : MergeOpts) (t s : List DNode) (ht : wf
 example : wfForest exS exT = true ∧ wfForest exS exSrc = true ∧ beqL (merge exS {} exT exSrc) exT = false ∧
     wfForest exS (merge exS {} exT exSrc) = true := by decide
 
+/-- non-vacuity (audit): the three theorems instantiated at the nested-list trees and at the duplicate-instance trees -/
+example : wfForest auS (merge auS {} auT auSrc) = true ∧ wfForest exDS (merge exDS {} exDT exDSrc) = true ∧
+    canon auS 5 (merge auS {} auT auSrc) = merge auS {} auT auSrc ∧ ordAll auS (merge auS {} auT auSrc) = true :=
+  ⟨merge_result_wf auS {} auT auSrc (by decide) (by decide), merge_result_wf exDS {} exDT exDSrc (by decide) (by decide),
+   merge_result_canon_fixpoint auS {} auT auSrc (by decide) (by decide) 5,
+   (merge_result_canonical auS {} auT auSrc (by decide) (by decide)).2.2⟩
+
 /-! ## dup -/
 
 /-- **dup_equal (recursive)**: a recursive duplicate is the original node for node — same structure, schema nodes,
@@ -402,6 +564,20 @@ example :
       beqL (dupNode exS {} n).kids [.term 4 { new := true } [] [97]] = true := by
   decide
 
+/-- non-vacuity (audit): the five theorems instantiated at the two-key list entry `auT1` (a list nested in it, two levels of children) and,
+for the flag hypothesis, at the entry with a default non-presence container over a default leaf -/
+example :
+    let d := auOut 97 50 [.inner 10 { dflt := true } [] [.term 11 { dflt := true } [] [100]]]
+    dupNode auS { recursive := true } auT1 = relabel (dupFlags { recursive := true }) (dupMetas { recursive := true }) auT1 ∧
+      dupNode auS { recursive := true } d = relabel (dupFlags { recursive := true }) (dupMetas { recursive := true }) d ∧
+      eqContent (dupNode auS { recursive := true, noMeta := true } auT1) auT1 = true ∧
+      dupNode auS { recursive := true, withFlags := true } d = d ∧
+      dupNode auS { recursive := true, noMeta := true } auT1 = relabel (dupFlags { recursive := true, noMeta := true }) (fun _ => []) auT1 ∧
+      (dupNode auS {} auT1).kids = [.term 1 { new := true } [] [97], .term 2 { new := true } [] [49]] :=
+  ⟨dup_equal_recursive auS _ auT1 rfl (by decide), dup_equal_recursive auS _ _ rfl (by decide), dup_equal_content auS _ auT1 rfl,
+   dup_equal_with_flags auS _ _ rfl rfl rfl (by decide), dup_no_meta auS _ auT1 rfl rfl (by decide),
+   dup_shallow auS {} 0 {} [] _ rfl⟩
+
 /-- **dup_equal (with parents)**: `LYD_DUP_WITH_PARENTS` duplicates a nested node `n` below a copy of the chain of its
 ancestors `anc` (nearest first) — one root; every duplicated parent has the parent's schema node, its metadata unless
 `LYD_DUP_NO_META`, the duplicates of its list keys and *exactly one* more child: the next node of the path
@@ -424,6 +600,13 @@ example :
   refine ⟨?_, by decide⟩
   simp only [ChainOK]
   decide
+
+/-- non-vacuity (audit): the theorem instantiated three levels down, through nested lists: `o[a,1]/i[j=p]/w` with its parents `i[j=p]` and
+the two-key entry `o[a,1]` — one root, each copied parent with its keys and the path only -/
+example : ∃ root, dupTop auS { withParents := true } true [auIn 112 [.term 5 {} [] [49]], auT1] [.term 5 {} [] [49]] = [root] ∧
+    PathOnly auS { withParents := true } [auT1, auIn 112 [.term 5 {} [] [49]]] (.term 5 { new := true } [] [49]) root :=
+  dup_with_parents auS { withParents := true } [auIn 112 [.term 5 {} [] [49]], auT1] (.term 5 {} [] [49]) rfl (by simp) (by decide)
+    (by simp only [ChainOK]; decide)
 
 /-- **dup_siblings_equal**: `lyd_dup_siblings` of a sibling list in canonical order is the list of the duplicates of its
 nodes, in the same order — for every option set, i.e. whichever insert order `lyd_dup` uses (`LYD_INSERT_NODE_DEFAULT`,
@@ -458,5 +641,14 @@ theorem merge_into_empty_eq_dup (S : Schema) (o : MergeOpts) (s : List DNode) (h
 
 example : wfForest exS exSrc = true ∧ beqL (dupSiblings exS { recursive := true, noLyds := true } exSrc) exSrc = false ∧
     beqL (dupSiblings exS DupOpts.full exSrc) exSrc = true := by decide
+
+/-- non-vacuity (audit): the three theorems instantiated at the nested-list forests (two-key entries, sorted `int8` leaf-list) and
+`dup_siblings_equal` at the forest with repeated key-less list / state leaf-list instances -/
+example : dupSiblings auS { recursive := true, noLyds := true } auT = auT.map (dupNode auS { recursive := true, noLyds := true }) ∧
+    dupSiblings exDS { recursive := true } exDSrc = exDSrc.map (dupNode exDS { recursive := true }) ∧
+    dupSiblings auS DupOpts.full auT = auT ∧
+    merge auS {} [] auSrc = (dupSiblings auS DupOpts.full auSrc).map (fun n => if ({} : MergeOpts).withFlags then n else setNew n) :=
+  ⟨dup_siblings_equal auS _ auT (by decide), dup_siblings_equal exDS _ exDSrc (by decide), dup_siblings_full auS auT (by decide),
+   merge_into_empty_eq_dup auS {} auSrc (by decide)⟩
 
 end LyModel.Props.C14
